@@ -85,9 +85,11 @@ enum Op {
     MutualClose { c: usize, api: Api, bad: bool },
     Restart,
     AddBlock,
+    AddBadBlock { kind: u8 },
+    RemoveBlock { bad: u8 },
     Heartbeat,
     // node-level requests used to provoke refusals (C10) and durable changes (C11)
-    Allowlist { kind: u8 },
+    Allowlist { kind: u8, sel: u8, bad_pos: u8, rot: u8 },
     Keysend { conflict: bool },
     ForgetChannel { c: usize },
     NewChannelReused,
@@ -482,6 +484,23 @@ impl Hist {
                 Ok(()) => Outcome::new(Res::Ok),
                 Err(e) => Outcome::new(Res::Err(e)),
             },
+            Op::AddBadBlock { kind } => {
+                let salt = rng.next_u64();
+                let (r, _) = self.world.request(|_| report::catch(|| self.world.add_bad_block(kind, salt)));
+                match r {
+                    Ok(Ok(())) => Outcome::new(Res::Ok),
+                    Ok(Err(e)) => Outcome::new(Res::Err(format!("add_block: {}", e))),
+                    Err(p) => Outcome::new(Res::Panic(p)),
+                }
+            }
+            Op::RemoveBlock { bad } => {
+                let (r, _) = self.world.request(|_| report::catch(|| self.world.remove_tip_block(bad)));
+                match r {
+                    Ok(Ok(())) => Outcome::new(Res::Ok),
+                    Ok(Err(e)) => Outcome::new(Res::Err(format!("remove_block: {}", e))),
+                    Err(p) => Outcome::new(Res::Panic(p)),
+                }
+            }
             Op::Heartbeat => {
                 let (r, _) = self.world.request(|node| report::catch(|| node.get_heartbeat()));
                 match r {
@@ -489,19 +508,29 @@ impl Hist {
                     Err(p) => Outcome::new(Res::Panic(p)),
                 }
             }
-            Op::Allowlist { kind } => {
-                let good1 = self.world.node.get_native_address(&vec![ChildNumber::from_normal_idx(3).unwrap()].into()).map(|a| a.to_string()).unwrap_or_default();
-                let good2 = self.world.node.get_native_address(&vec![ChildNumber::from_normal_idx(4 + rng.below(4) as u32).unwrap()].into()).map(|a| a.to_string()).unwrap_or_default();
-                let bad = "not-an-address".to_string();
+            Op::Allowlist { kind, sel, bad_pos, rot } => {
+                // entries: a subset of 5 wallet addresses (present or absent in the current list),
+                // rotated, optionally with one unparsable entry at some position
+                let mut entries: Vec<String> = vec![];
+                for i in 0..5u32 {
+                    if sel & (1 << i) != 0 {
+                        let a = self.world.node.get_native_address(&vec![ChildNumber::from_normal_idx(3 + i).unwrap()].into()).map(|a| a.to_string()).unwrap_or_default();
+                        entries.push(a);
+                    }
+                }
+                if !entries.is_empty() {
+                    let r = rot as usize % entries.len();
+                    entries.rotate_left(r);
+                }
+                if bad_pos > 0 {
+                    let pos = (bad_pos as usize - 1).min(entries.len());
+                    entries.insert(pos, "not-an-address".to_string());
+                }
                 let (r, _) = self.world.request(|node| {
-                    report::catch(|| match kind {
-                        0 => node.add_allowlist(&[good1.clone()]),
-                        1 => node.add_allowlist(&[good2.clone(), bad.clone()]),
-                        2 => node.add_allowlist(&[bad.clone()]),
-                        3 => node.remove_allowlist(&[good1.clone()]),
-                        4 => node.remove_allowlist(&[good1.clone(), bad.clone()]),
-                        5 => node.set_allowlist(&[good2.clone()]),
-                        _ => node.set_allowlist(&[good1.clone(), bad.clone()]),
+                    report::catch(|| match kind % 3 {
+                        0 => node.add_allowlist(&entries),
+                        1 => node.remove_allowlist(&entries),
+                        _ => node.set_allowlist(&entries),
                     })
                 });
                 Outcome::new(status_res(r).0)
@@ -1029,8 +1058,13 @@ fn gen_op(rng: &mut Rng, h: &Hist, prop: Prop) -> Op {
         11 => {
             if rng.chance(1, 4) { Op::MutualClose { c, api: pick_api(rng), bad: rng.chance(1, 3) } } else { Op::CheckFutureSecret { c, n: rel(rng, nh), api: pick_api(rng) } }
         }
-        12 => if rng.bool() { Op::AddBlock } else { Op::Heartbeat },
-        13 => Op::Allowlist { kind: rng.below(7) as u8 },
+        12 => match rng.below(if node_level { 6 } else { 2 }) {
+            0 => Op::AddBlock,
+            1 => Op::Heartbeat,
+            2 | 3 => Op::AddBadBlock { kind: rng.below(3) as u8 },
+            _ => Op::RemoveBlock { bad: rng.below(3) as u8 },
+        },
+        13 => Op::Allowlist { kind: rng.below(3) as u8, sel: rng.below(32) as u8, bad_pos: if rng.chance(1, 3) { 1 + rng.below(4) as u8 } else { 0 }, rot: rng.below(5) as u8 },
         14 => match rng.below(4) {
             0 => Op::Keysend { conflict: false },
             1 => Op::NewChannelReused,
@@ -1315,6 +1349,14 @@ fn c11_check(h: &mut Hist, r: &mut Report, cli: &Cli, op: &Op, out: &Outcome) {
 fn run_history(rng: &mut Rng, r: &mut Report, cli: &Cli, prop: Prop, shard: usize, index: u64, steps: u64) {
     let cloud = matches!(prop, Prop::C10 | Prop::C11) && index % 3 == 2;
     let mut h = Hist::new(rng, shard, index, cloud);
+    if matches!(prop, Prop::C10 | Prop::C11) && index % 3 == 1 {
+        // fill the tracker's header window (MAX_REORG_SIZE = 100) so that requests act on a full window
+        let n = 98 + rng.below(8);
+        for _ in 0..n {
+            let _ = h.world.request(|_| h.world.add_empty_block());
+        }
+        r.count("histories_with_full_header_window");
+    }
     let mut both_sign_and_revoke_attempt = (false, false);
     for _step in 0..steps {
         let op = gen_op(rng, &h, prop);
